@@ -26,7 +26,7 @@ INHERITED_BY_BOUNDS = ("units", "calendar", "standard_name", "axis", "positive",
 
 
 # ------------------------------------------------------------------ building
-def make_array(shape, dtype, base, mask):
+def make_array(shape, dtype, base, mask, delta=None):
     n = int(np.prod(shape)) if shape else 1
     if dtype == "S":
         words = ["a", "bc", "def", "gh", "ijklm", "n", "opq"]
@@ -35,12 +35,57 @@ def make_array(shape, dtype, base, mask):
         a = (np.arange(n) + base % 50) % 100     # stay clear of every default fill value and of i1/u1 overflow
         if dtype.startswith("f"):
             a = a * 0.5
+        if delta is not None:
+            a[delta % n] += 1                   # "nearly equal" to the array of the same base
         a = a.astype(dtype).reshape(shape)
     if mask and n > 1:
         m = np.zeros(n, dtype=bool)
         m[(base % (n - 1)) + 1 if n > 2 else 1] = True
         a = np.ma.array(a, mask=m.reshape(shape))
     return a
+
+
+def apply_vp(x, a, vp):
+    """Set the validity property described by vp = {"kind", "rel"} on the construct x whose data are `a`, with a value
+    chosen relative to the ACTUAL data values (coincide with an extreme / just outside / just inside), cast to the data
+    type.  Returns the array a reader must deliver by CF 2.5.1: values outside the valid range, or equal to the
+    missing value / _FillValue, are missing data."""
+    raw = np.ma.getdata(a)
+    m0 = np.ma.getmaskarray(a)
+    vals = raw[~m0]
+    if a.dtype.kind not in "iuf" or not vals.size:
+        return a
+    lo, hi = vals.min().item(), vals.max().item()
+    step = 1 if a.dtype.kind in "iu" else 0.5
+    kind, rel = vp["kind"], vp["rel"]
+    down = {"coincide": lo, "outside": lo - step, "inside": lo + step}[rel]
+    up = {"coincide": hi, "outside": hi + step, "inside": hi - step}[rel]
+    if a.dtype.kind == "u" and down < 0:
+        down = lo
+    if down > up:
+        down, up = lo, hi
+    cast = a.dtype.type
+    bad = np.zeros(a.shape, dtype=bool)
+    if kind == "valid_range":
+        x.set_property(kind, np.array([down, up], dtype=a.dtype))
+        bad = (raw < cast(down)) | (raw > cast(up))
+    elif kind == "valid_min":
+        x.set_property(kind, cast(down))
+        bad = raw < cast(down)
+    elif kind == "valid_max":
+        x.set_property(kind, cast(up))
+        bad = raw > cast(up)
+    elif kind == "valid_min_max":
+        x.set_property("valid_min", cast(down))
+        x.set_property("valid_max", cast(up))
+        bad = (raw < cast(down)) | (raw > cast(up))
+    else:   # missing_value, _FillValue
+        v = {"coincide": hi, "outside": hi + step, "inside": (lo + 0.25) if a.dtype.kind == "f" else hi + step}[rel]
+        x.set_property(kind, cast(v))
+        bad = raw == cast(v)
+    if not bad.any():
+        return a
+    return np.ma.array(raw, mask=m0 | bad)
 
 
 def set_props(x, props):
@@ -50,7 +95,9 @@ def set_props(x, props):
         x.set_property(k, v)
 
 
-def build(spec):
+def build(spec, expect=False):
+    """The construct described by spec.  expect=True: the construct a reader must deliver, i.e. with the elements that
+    the construct's own valid_* / missing_value / _FillValue properties declare missing masked."""
     domain = spec.get("kind") == "domain"
     f = cfdm.Field()
     set_props(f, spec.get("props"))
@@ -67,7 +114,11 @@ def build(spec):
     if spec.get("data") is not None:
         dd = spec["data"]
         shape = [spec["axes"][a]["size"] for a in dd["axes"]]
-        f.set_data(cfdm.Data(make_array(shape, dd["dtype"], 7, dd.get("mask"))), axes=[akeys[a] for a in dd["axes"]])
+        arr = make_array(shape, dd["dtype"], dd.get("vbase", 7), dd.get("mask"))
+        if dd.get("vp"):
+            arrx = apply_vp(f, arr, dd["vp"])
+            arr = arrx if expect else arr
+        f.set_data(cfdm.Data(arr), axes=[akeys[a] for a in dd["axes"]])
     ckeys = []
     CLS = {"dim": cfdm.DimensionCoordinate, "aux": cfdm.AuxiliaryCoordinate, "measure": cfdm.CellMeasure,
            "fanc": cfdm.FieldAncillary, "danc": cfdm.DomainAncillary}
@@ -78,14 +129,19 @@ def build(spec):
         if c.get("ncvar") is not None:
             x.nc_set_variable(c["ncvar"])
         if not c.get("nodata"):
-            x.set_data(cfdm.Data(make_array(shape, c.get("dtype", "f8"), 11 * (j + 1), c.get("mask"))))
+            arr = make_array(shape, c.get("dtype", "f8"), c.get("vbase", 11 * (j + 1)), c.get("mask"), c.get("vdelta"))
+            if c.get("vp"):
+                arrx = apply_vp(x, arr, c["vp"])
+                arr = arrx if expect else arr
+            x.set_data(cfdm.Data(arr))
         if c["type"] == "measure":
             x.set_measure(c.get("measure", "area"))
             if c.get("external"):
                 x.nc_set_external(True)
         b = c.get("bounds")
         if b:
-            ba = make_array(shape + [b["n"]], b.get("dtype", c.get("dtype", "f8")), 13 * (j + 1) + 3, False)
+            ba = make_array(shape + [b["n"]], b.get("dtype", c.get("dtype", "f8")), b.get("vbase", 13 * (j + 1) + 3), False,
+                            b.get("vdelta"))
             bb = cfdm.Bounds(data=cfdm.Data(ba))
             set_props(bb, b.get("props"))
             if b.get("ncvar") is not None:
@@ -121,6 +177,303 @@ def build(spec):
     return f
 
 
+# ------------------------------------------------------------------ compression by convention (CF 8.2, 9.3)
+def cs_layout(cs):
+    """(uncompressed shape, compressed shape, position of the compressed dimension) of the data of a compressed case."""
+    k = cs["ckind"]
+    trail = list(cs.get("trail", []))
+    if k == "gathered":
+        shape, pos, n = list(cs["shape"]), cs["pos"], cs["k"]
+        return shape, shape[:pos] + [len(cs["list"])] + shape[pos + n:], pos
+    if k == "contiguous":
+        return [len(cs["counts"]), max(cs["counts"])] + trail, [sum(cs["counts"])] + trail, 0
+    if k == "indexed":
+        per = [cs["index"].count(i) for i in range(cs["ninst"])]
+        return [cs["ninst"], max(per)] + trail, [len(cs["index"])] + trail, 0
+    per = [cs["pindex"].count(i) for i in range(cs["ninst"])]
+    return [cs["ninst"], max(per), max(cs["pcount"])] + trail, [sum(cs["pcount"])] + trail, 0
+
+
+def cs_uncompress(cs, C, nlead=None):
+    """Decoder written from the CF text with numpy only: the uncompressed masked array of the compressed array C.
+    nlead: number of leading uncompressed dimensions the variable has (DSG: 2 or 3; fewer for a variable that
+    only spans the leading ones)."""
+    k = cs["ckind"]
+    C = np.ma.asanyarray(C)
+    if k == "gathered":
+        shape, pos, n = list(cs["shape"]), cs["pos"], cs["k"]
+        U = np.ma.masked_all(shape, dtype=C.dtype)
+        gshape = shape[pos:pos + n]
+        for j, li in enumerate(cs["list"]):
+            idx = np.unravel_index(li, gshape)
+            U[(slice(None),) * pos + tuple(int(i) for i in idx)] = C[(slice(None),) * pos + (j,)]
+        return U
+    trail = list(C.shape[1:])
+    if k == "contiguous":
+        cnt = cs["counts"]
+        U = np.ma.masked_all([len(cnt), max(cnt)] + trail, dtype=C.dtype)
+        o = 0
+        for i, c in enumerate(cnt):
+            U[i, :c] = C[o:o + c]
+            o += c
+        return U
+    if k == "indexed":
+        per = [cs["index"].count(i) for i in range(cs["ninst"])]
+        U = np.ma.masked_all([cs["ninst"], max(per)] + trail, dtype=C.dtype)
+        seen = [0] * cs["ninst"]
+        for e, i in enumerate(cs["index"]):
+            U[i, seen[i]] = C[e]
+            seen[i] += 1
+        return U
+    # indexed contiguous: profile p belongs to station pindex[p] and holds pcount[p] consecutive elements
+    per = [cs["pindex"].count(i) for i in range(cs["ninst"])]
+    if nlead == 2:
+        # a variable with one value per profile: (station, profile)
+        U = np.ma.masked_all([cs["ninst"], max(per)] + trail, dtype=C.dtype)
+        seen = [0] * cs["ninst"]
+        for p_, i in enumerate(cs["pindex"]):
+            U[i, seen[i]] = C[p_]
+            seen[i] += 1
+        return U
+    U = np.ma.masked_all([cs["ninst"], max(per), max(cs["pcount"])] + trail, dtype=C.dtype)
+    seen = [0] * cs["ninst"]
+    o = 0
+    for p_, i in enumerate(cs["pindex"]):
+        c = cs["pcount"][p_]
+        U[i, seen[i], :c] = C[o:o + c]
+        o += c
+        seen[i] += 1
+    return U
+
+
+def cs_wrap(cs, C, ushape, vars_):
+    """cfdm compressed array of the compressed numpy array C (API origin)."""
+    k = cs["ckind"]
+    cd = cfdm.Data(C)
+    if k == "gathered":
+        return cfdm.GatheredArray(compressed_array=cd, shape=tuple(ushape), list_variable=vars_["list"],
+                                  compressed_dimensions={cs["pos"]: tuple(range(cs["pos"], cs["pos"] + cs["k"]))})
+    if k == "contiguous":
+        return cfdm.RaggedContiguousArray(compressed_array=cd, shape=tuple(ushape), count_variable=vars_["count"])
+    if k == "indexed":
+        return cfdm.RaggedIndexedArray(compressed_array=cd, shape=tuple(ushape), index_variable=vars_["index"])
+    return cfdm.RaggedIndexedContiguousArray(compressed_array=cd, shape=tuple(ushape), count_variable=vars_["count"],
+                                             index_variable=vars_["index"])
+
+
+FEATURE = {"contiguous": "timeSeries", "indexed": "timeSeries", "indexed_contiguous": "timeSeriesProfile"}
+
+
+def build_compressed_api(cs):
+    k = cs["ckind"]
+    nm = cs.get("names") or {}
+    ushape, cshape, pos = cs_layout(cs)
+    vars_ = {}
+    if k == "gathered":
+        v = cfdm.List(data=cfdm.Data(np.array(cs["list"], dtype="i4")))
+        if nm.get("list"):
+            v.nc_set_variable(nm["list"])
+        vars_["list"] = v
+    if k in ("contiguous", "indexed_contiguous"):
+        v = cfdm.Count(data=cfdm.Data(np.array(cs["counts" if k == "contiguous" else "pcount"], dtype="i4")))
+        if cs.get("count_props"):
+            set_props(v, cs["count_props"])
+        if nm.get("count"):
+            v.nc_set_variable(nm["count"])
+        if nm.get("sample"):
+            v.nc_set_sample_dimension(nm["sample"])
+        vars_["count"] = v
+    if k in ("indexed", "indexed_contiguous"):
+        v = cfdm.Index(data=cfdm.Data(np.array(cs["index" if k == "indexed" else "pindex"], dtype="i4")))
+        if nm.get("index"):
+            v.nc_set_variable(nm["index"])
+        if nm.get("sample") and k == "indexed":
+            v.nc_set_sample_dimension(nm["sample"])
+        vars_["index"] = v
+    props = {"standard_name": "air_temperature", "units": "K"}
+    if k != "gathered":
+        props["featureType"] = FEATURE[k]
+    f = cfdm.Field(properties=props)
+    if nm.get("data"):
+        f.nc_set_variable(nm["data"])
+    akeys = []
+    for i, n in enumerate(ushape):
+        d = cfdm.DomainAxis(n)
+        if (nm.get("dims") or {}).get(str(i)):
+            d.nc_set_dimension(nm["dims"][str(i)])
+        akeys.append(f.set_construct(d))
+    C = make_array(cshape, cs["dtype"], 7, cs.get("mask"))
+    f.set_data(cfdm.Data(cs_wrap(cs, C, ushape, vars_)), axes=akeys)
+    nlead = len(ushape) - len(cs.get("trail", [])) if k != "gathered" else None
+    for j, c in enumerate(cs.get("cons", [])):
+        # over: list of axis positions of the uncompressed field; comp: stored compressed like the data
+        axes = c["over"]
+        shape = [ushape[a] for a in axes]
+        CLS = {"dim": cfdm.DimensionCoordinate, "aux": cfdm.AuxiliaryCoordinate, "fanc": cfdm.FieldAncillary}
+        x = CLS[c["type"]](properties=dict(c.get("props") or {}))
+        if c.get("ncvar"):
+            x.nc_set_variable(c["ncvar"])
+        if c.get("comp"):
+            if k == "gathered":
+                sub = dict(cs, shape=shape, pos=axes.index(cs["pos"]))
+            elif k == "indexed_contiguous" and len(axes) == 2:
+                sub = {"ckind": "indexed", "index": cs["pindex"], "ninst": cs["ninst"]}
+                vars2 = {"index": vars_["index"]}
+            else:
+                sub = dict(cs, trail=[])
+            ush, csh, _ = cs_layout(sub)
+            Cc = make_array(csh, c.get("dtype", "f8"), 11 * (j + 1), c.get("mask"))
+            x.set_data(cfdm.Data(cs_wrap(sub, Cc, ush, vars_ if sub["ckind"] == k else vars2)))
+        else:
+            x.set_data(cfdm.Data(make_array(shape, c.get("dtype", "f8"), 11 * (j + 1), c.get("mask"))))
+        f.set_construct(x, axes=[akeys[a] for a in axes])
+    return f
+
+
+def build_compressed_file(cs, fn):
+    """Encode the case by hand with netCDF4-python (no cfdm), and return {netCDF variable name: the uncompressed
+    array that CF says it stands for}."""
+    import netCDF4
+    k = cs["ckind"]
+    nm = cs.get("names") or {}
+    ushape, cshape, pos = cs_layout(cs)
+    nc = netCDF4.Dataset(fn, "w", format=cs.get("file_fmt", "NETCDF4"))
+    nc.Conventions = "CF-1.11"
+    expected = {}
+    udims = []
+    for i, n in enumerate(ushape):
+        udims.append((nm.get("dims") or {}).get(str(i)) or "d%d" % i)
+    trail = cs.get("trail", [])
+    fill = {"f4": -999.0, "f8": -999.0, "i4": -999, "i2": -999, "i1": -99}
+
+    def put(name, dims, arr, attrs, dtype=None):
+        arr = np.ma.asanyarray(arr)
+        dt = dtype or arr.dtype.str[1:]
+        fv = fill.get(dt) if np.ma.is_masked(arr) else None
+        v = nc.createVariable(name, dt, tuple(dims), fill_value=fv)
+        v.set_auto_maskandscale(False)
+        for a, val in attrs.items():
+            v.setncattr(a, val)
+        v[...] = arr.filled(fv) if fv is not None else np.ma.getdata(arr)
+        return v
+
+    if k == "gathered":
+        p0, n = cs["pos"], cs["k"]
+        lname = nm.get("list") or "landpoint"
+        for i, sz in enumerate(ushape):
+            nc.createDimension(udims[i], sz)
+        nc.createDimension(lname, len(cs["list"]))
+        put(lname, [lname], np.array(cs["list"], dtype="i4"), {"compress": " ".join(udims[p0:p0 + n])})
+        cdims = udims[:p0] + [lname] + udims[p0 + n:]
+        sample_dims = None
+    else:
+        inst = udims[0]
+        nc.featureType = FEATURE[k]
+        nc.createDimension(inst, ushape[0])
+        for i, sz in enumerate(trail):
+            nc.createDimension(udims[len(ushape) - len(trail) + i], sz)
+        sname = nm.get("sample") or "obs"
+        nc.createDimension(sname, cshape[0])
+        if k == "contiguous":
+            put(nm.get("count") or "row_size", [inst], np.array(cs["counts"], dtype="i4"),
+                dict({"sample_dimension": sname}, **(cs.get("count_props") or {})))
+        elif k == "indexed":
+            put(nm.get("index") or "station_index", [sname], np.array(cs["index"], dtype="i4"), {"instance_dimension": inst})
+        else:
+            pname = nm.get("profile") or "profile"
+            nc.createDimension(pname, len(cs["pcount"]))
+            put(nm.get("count") or "row_size", [pname], np.array(cs["pcount"], dtype="i4"), {"sample_dimension": sname})
+            put(nm.get("index") or "station_index", [pname], np.array(cs["pindex"], dtype="i4"), {"instance_dimension": inst})
+        cdims = [sname] + udims[len(ushape) - len(trail):]
+    coords = []
+    ancs = []
+    for j, c in enumerate(cs.get("cons", [])):
+        axes = c["over"]
+        shape = [ushape[a] for a in axes]
+        name = c.get("ncvar") or "v%d" % j
+        attrs = dict(c.get("props") or {})
+        if c.get("comp"):
+            if k == "gathered":
+                sub = dict(cs, shape=shape, pos=axes.index(cs["pos"]))
+                ush, csh, _ = cs_layout(sub)
+                vd = [udims[a] for a in axes[:sub["pos"]]] + [cdims[cs["pos"]]] + [udims[a] for a in axes[sub["pos"] + cs["k"]:]]
+                nlead = None
+            elif k == "indexed_contiguous" and len(axes) == 2:
+                sub, csh, vd, nlead = cs, [len(cs["pcount"])], [nm.get("profile") or "profile"], 2
+            else:
+                sub = dict(cs, trail=[])
+                ush, csh, _ = cs_layout(sub)
+                vd, nlead = [cdims[0]], None
+            Cc = make_array(csh, c.get("dtype", "f8"), 11 * (j + 1), c.get("mask"))
+            put(name, vd, Cc, attrs)
+            expected[name] = cs_uncompress(sub, Cc, nlead)
+        else:
+            A = make_array(shape, c.get("dtype", "f8"), 11 * (j + 1), c.get("mask"))
+            if c["type"] == "dim":
+                name = udims[axes[0]]
+            put(name, [udims[a] for a in axes], A, attrs)
+            expected[name] = np.ma.asanyarray(A)
+        if c["type"] == "aux":
+            coords.append(name)
+        elif c["type"] == "fanc":
+            ancs.append(name)
+    C = make_array(cshape, cs["dtype"], 7, cs.get("mask"))
+    attrs = {"standard_name": "air_temperature", "units": "K"}
+    if coords:
+        attrs["coordinates"] = " ".join(coords)
+    if ancs:
+        attrs["ancillary_variables"] = " ".join(ancs)
+    dname = nm.get("data") or "ta"
+    put(dname, cdims, C, attrs)
+    expected[dname] = cs_uncompress(cs, C)
+    nc.close()
+    return expected, dname
+
+
+def same_array(got, exp):
+    got = np.ma.asanyarray(got)
+    exp = np.ma.asanyarray(exp)
+    if list(got.shape) != list(exp.shape):
+        return f"shape {list(got.shape)} != {list(exp.shape)}"
+    if got.dtype.name != exp.dtype.name:
+        return f"dtype {got.dtype.name} != {exp.dtype.name}"
+    if not (np.ma.getmaskarray(got) == np.ma.getmaskarray(exp)).all():
+        return "mask differs"
+    if not (got.filled(0) == exp.filled(0)).all():
+        return "values differ"
+    return None
+
+
+def obtain_compressed(cs, scratch, tag):
+    """(f, problems): the compressed field of the case.  Origin 'file': hand-encoded dataset read with cfdm.read;
+    every variable is realised and compared with the numpy decoding of the file."""
+    if cs.get("origin") != "file":
+        return build_compressed_api(cs), []
+    fn = os.path.join(scratch, f"c01_{tag}_src.nc")
+    expected, dname = build_compressed_file(cs, fn)
+    fs = cfdm.read(fn)
+    problems = []
+    if len(fs) != 1:
+        problems.append(f"hand-encoded file read as {len(fs)} fields: {[g.nc_get_variable(None) for g in fs]}")
+        return (fs[0] if fs else None), problems
+    f = fs[0]
+    found = {f.nc_get_variable(None): f}
+    for key, x in f.constructs.filter_by_data(todict=True).items():
+        found[x.nc_get_variable(None)] = x
+    for name, exp in expected.items():
+        x = found.get(name)
+        if x is None:
+            problems.append(f"variable {name} of the hand-encoded file is not a construct of the field read")
+            continue
+        try:
+            why = same_array(x.data.array, exp)
+        except Exception as ex:
+            why = "realising the data raised " + type(ex).__name__ + ": " + str(ex)[:200]
+        if why:
+            problems.append(f"{name}: {why}")
+    return f, problems
+
+
 # ------------------------------------------------------------------ fingerprint
 def jval(v):
     if isinstance(v, np.ndarray):
@@ -136,6 +489,39 @@ def jval(v):
 
 def jprops(x):
     return {k: jval(v) for k, v in sorted(x.properties().items()) if k != "Conventions"}
+
+
+def comp_vars(d):
+    out = []
+    for kind, get in (("count", "get_count"), ("index", "get_index"), ("list", "get_list")):
+        try:
+            v = getattr(d, get)(None)
+        except Exception:
+            v = None
+        if v is not None:
+            out.append((kind, v))
+    return out
+
+
+def comp_names(d, label):
+    """What compressed data carry besides their (uncompressed) values: the kind of compression by convention, the
+    properties of the count / index / list variables, and the netCDF names set on them.  Like a set name, each must
+    survive; data that were not compressed may come back compressed (geometries are stored as ragged arrays)."""
+    out = []
+    ct = d.get_compression_type()
+    if not ct:
+        return out
+    out.append([label, "compression", ct])
+    for kind, v in comp_vars(d):
+        for k, p in sorted(v.properties().items()):
+            out.append([label, kind + "property", json.dumps([k, jval(p)], default=str)])
+        if v.nc_get_variable(None) is not None:
+            out.append([label, kind + "var", v.nc_get_variable()])
+        if hasattr(v, "nc_get_sample_dimension") and v.nc_get_sample_dimension(None) is not None:
+            out.append([label, kind + "sampledim", v.nc_get_sample_dimension()])
+        if hasattr(v, "nc_get_dimension") and v.nc_get_dimension(None) is not None:
+            out.append([label, kind + "dim", v.nc_get_dimension()])
+    return out
 
 
 def jdata(x):
@@ -241,8 +627,14 @@ def fingerprint(f):
     names = []
     if f.nc_get_variable(None) is not None:
         names.append(["self", "var", f.nc_get_variable()])
+    # the element dimensions of a ragged array are not netCDF dimensions of the dataset (CF 9.3): no name to keep
+    element_axes = set()
+    if is_field and f.has_data() and f.data.get_compression_type().startswith("ragged"):
+        element_axes = {data_axes[i] for i in sorted(f.data.get_compressed_axes())[1:]}
     for ak, ax in axes.items():
         if ax.nc_get_dimension(None) is not None:
+            if ak in element_axes:
+                continue
             if is_field and ak not in data_axes and ax.get_size(None) == 1:
                 continue   # written as a scalar coordinate variable, which has no netCDF dimension
             dc = [x.nc_get_variable(None) for k, (t, x) in meta.items()
@@ -250,7 +642,11 @@ def fingerprint(f):
             if dc and dc[0] is not None and dc[0] != ax.nc_get_dimension():
                 continue   # a coordinate variable's name is its dimension's name: netCDF cannot hold both
             names.append([alabel[ak], "dim", ax.nc_get_dimension()])
+    if is_field and f.has_data():
+        names += comp_names(f.data, "self")
     for k, (t, x) in meta.items():
+        if x.has_data():
+            names += comp_names(x.data, chash[k])
         if x.nc_get_variable(None) is not None:
             names.append([chash[k], "var", x.nc_get_variable()])
         if hasattr(x, "has_bounds") and x.has_bounds():
@@ -355,11 +751,22 @@ def run_case(c, scratch, n):
             f = cfdm.example_field(c["example"])
             if c.get("domain"):
                 f = f.domain
+        elif "cs" in c:
+            f, pre = obtain_compressed(c["cs"], scratch, f"{os.getpid()}_{n}")
+            if pre:
+                row["pre_fail"] = pre
+            if f is None:
+                return row
         else:
             f = build(c["spec"])
     except Exception as ex:
         row["build_err"] = type(ex).__name__ + ": " + str(ex)[:300]
         return row
+    # fx: what a reader must deliver.  It is f itself unless f holds unmasked values that its own valid_* /
+    # missing_value / _FillValue properties declare missing (CF 2.5.1): those come back masked
+    fx = f
+    if "spec" in c and c.get("expect_masked"):
+        fx = build(c["spec"], expect=True)
     opts = dict(c.get("options") or {})
     fn = os.path.join(scratch, f"c01_{os.getpid()}_{n}.nc")
     ext = None
@@ -367,7 +774,8 @@ def run_case(c, scratch, n):
         ext = os.path.join(scratch, f"c01_{os.getpid()}_{n}_ext.nc")
         opts["external"] = ext
     try:
-        fp0, names0 = fingerprint(f)
+        fp0, names0 = fingerprint(fx)
+        fps, namess = (fp0, names0) if fx is f else fingerprint(f)
     except Exception as ex:
         row["harness_err"] = "fingerprint(before): " + type(ex).__name__ + ": " + str(ex)[:300]
         return row
@@ -396,12 +804,19 @@ def run_case(c, scratch, n):
         # the construct that came from the data/domain variable (the first one when unsure)
         g = gs[0]
         try:
-            row["eq_fg"] = bool(f.equals(g))
-            row["eq_gf"] = bool(g.equals(f))
+            row["eq_fg"] = bool(fx.equals(g))
+            row["eq_gf"] = bool(g.equals(fx))
         except Exception as ex:
             row["equals_err"] = type(ex).__name__ + ": " + str(ex)[:300]
         try:
+            # realises the data of the field and of every metadata construct, bounds, interior ring read back
             fp1, names1 = fingerprint(g)
+        except Exception as ex:
+            row["realise_err"] = type(ex).__name__ + ": " + str(ex)[:300]
+            fp1 = None
+        try:
+            if fp1 is None:
+                raise StopIteration
             row["fp_equal"] = fp0 == fp1
             if fp0 != fp1:
                 diff = [k for k in fp0 if fp0[k] != fp1.get(k)]
@@ -419,15 +834,17 @@ def run_case(c, scratch, n):
             fp2, names2 = fingerprint(g)
             row["read_stable"] = (fp2 == fp1 and names2 == names1)
             row["noncompliance"] = bool(g.dataset_compliance()) if hasattr(g, "dataset_compliance") else False
+        except StopIteration:
+            pass
         except Exception as ex:
             row["harness_err"] = "fingerprint(after): " + type(ex).__name__ + ": " + str(ex)[:300]
     # source untouched?
     try:
         fp0b, names0b = fingerprint(f)
-        row["source_unchanged"] = (fp0b == fp0 and names0b == names0)
+        row["source_unchanged"] = (fp0b == fps and names0b == namess)
     except Exception:
         pass
-    for p in (fn, ext):
+    for p in (fn, ext, os.path.join(scratch, f"c01_{os.getpid()}_{n}_src.nc")):
         if p:
             try:
                 os.remove(p)
